@@ -220,7 +220,8 @@ def writeback_line(model: PyModel, event: str, line: str, note_fields: dict, not
             return None, f"{line!r}: {len(wr)} page writes"
         new = wr[0][2].split("\n")
         if new[1:] != content.split("\n")[1:]:
-            return None, f"{line!r}: lines below the first one changed"
+            # an observation about the code, not a limit of the analysis
+            return None, f"VIOLATION: a one-note page {content!r} is written back as {wr[0][2]!r}: lines below the note's first line are changed / dropped"
         outs.append(new[0])
     if len(set(outs)) != 1:
         return None, f"{line!r}: {len(set(outs))} abstract outcomes"
